@@ -172,7 +172,7 @@ func cellDSL(c emitCell, opts map[string]string) string {
 		if c.Single {
 			third = "A"
 		}
-		body += "u16 keyField, match keyField as " + n + " { 1 : A, 2 : A, 3 : " + third + ", },"
+		body += "u16 keyField, match keyField as " + n + " { 1 : A, 2 : A, 3 : " + third + ", 4 : A, },"
 	case "length":
 		body = c.spelled() + " " + n + " @lengthOf(targetField), u8 targetField,"
 	case "checksum":
@@ -416,7 +416,7 @@ func replayEmit(o emitObl, runs []emitRun) map[string]interface{} {
 		show("base")
 	case "pair":
 		txt := t("base")
-		for _, k := range []string{"1", "2", "3"} {
+		for _, k := range []string{"1", "2", "3", "4"} {
 			if !strings.Contains(txt, k) {
 				reproduced, observed = true, "key "+k+" of the match table does not occur in the dispatch code"
 			}
